@@ -16,6 +16,8 @@ CONFIGS = [
     dict(name="yices/panic*", over=dict(solver="yices", panic_error_codes=set()), panic="*"),
     dict(name="z3cmd/solidity", over=dict(solver_command="/venv/bin/z3"), no_arith=True),
     dict(name="yices/panic1+11", over=dict(solver="yices", panic_error_codes={1, 0x11}), panic=(1, 0x11)),
+    # the dump directory already holds the query files of an earlier run of a different contract with the same test names
+    dict(name="yices/reused-dump-dir", over=dict(solver="yices"), decoy=True),
 ]
 _FLAG_WORDS = ("loop unrolling bound", "incomplete execution", "internal-error", "Encountered")
 _TOK = re.compile(r"\(|\)|\|[^|]*\||[^\s()]+")
@@ -117,8 +119,8 @@ def run_contract_case(case):
     g = e2egen.TG(f"c03-{seed}-{k}")
     spec, metas = g.contract(f"G{k}", nfn=8)
     if cfg.get("no_arith"):
-        keep = [("setUp()", spec.fns[0][1])] + [f for f, m in zip(spec.fns[1:], metas) if "arith" not in m["kinds"]]
-        metas = [m for m in metas if "arith" not in m["kinds"]]
+        keep = [("setUp()", spec.fns[0][1])] + [f for f, m in zip(spec.fns[1:], metas) if not ({"arith", "exp"} & set(m["kinds"]))]
+        metas = [m for m in metas if not ({"arith", "exp"} & set(m["kinds"]))]
         spec = e2e.Spec(spec.name, fns=keep)
     if not metas:
         return rec.events, {}
@@ -128,6 +130,9 @@ def run_contract_case(case):
     try:
         over = dict(cfg["over"], dump_smt_queries=True, dump_smt_directory=dump, solver_timeout_assertion=60000)
         over.update(default_bytes_lengths=list(e2egen.BYTES_LENS), default_array_lengths=list(e2egen.ARRAY_LENS))
+        if cfg.get("decoy"):
+            dspec, _ = e2egen.TG(f"decoy-{seed}-{k}").contract(f"G{k}", nfn=8)
+            e2e.run(dspec, **over)
         o = e2e.run(spec, **over)
         if o.exception is not None or len(o.results) != len(metas):
             rec.harness_error(f"run_contract on {spec.name}/{cfg['name']}: {o.exception!r} results={len(o.results)} "
